@@ -236,6 +236,12 @@ where
                     stack.pop();
                     false
                 }
+                // Only zero-width text is left (e.g. a zero width space): it needs no
+                // room, so this is a perfect fit as well, however the text is sectioned.
+                Some(_) if stack.iter().all(|(_, text)| text.width() == 0) => {
+                    curr_line.push_and_set_len((style, text), new_len);
+                    false
+                }
                 _ => true,
             }
         } else {
@@ -266,7 +272,10 @@ where
             // at the end, so move the line segments out.
             let mut line_segments = curr_line.line_segments;
 
-            let next_line = if width_left == 0 {
+            // Leading zero-width graphemes need no room: they stay on this line, as they do
+            // when their section fits as a whole. Where a line is split must not depend on
+            // how its text is divided into sections.
+            let next_line = if width_left == 0 && first_width > 0 {
                 text
             } else {
                 let mut byte_split_pos = 0;
